@@ -78,21 +78,33 @@ theorem C12_text (d : Directive) (lead g1 g2 g3 : List Nat) (path : List PChar) 
     exact ⟨hlead, ⟨hg1, hg2, hpath, hg3⟩, hterm⟩
   simpa using parse_full [] _ h
 
-/-- "paths resolve relative to the file containing the directive": an `%import` / `%include` that succeeds checked and
-read the path `dir(last source) / path` — the directory of the file being expanded, not of the top-level file nor the
-working directory — and the file it names becomes the last source while its own directives are resolved
-(in the model `baseDir prog` is the parent of `prog.sources.getLast`) -/
+/-- "paths resolve relative to the file containing the directive": an `%import` / `%include` that succeeds
+* used the root `r` — the program's root when it has one, otherwise the root created from the FIRST source (the
+  top-level file; the path itself when the program has no source yet);
+* checked, against that root, the path `cwd / dir(last source) / path` — the directory of the file being expanded, not
+  of the top-level file nor the working directory — which resolved to the location `loc`;
+* read `loc`: the text preprocessed IS the content of the checked location;
+* preprocessed that text with `dir(last source) / path` pushed as the last source, so the file it names is the one whose
+  directory resolves its own directives.
+In the model `baseDir prog` is the parent of `prog.sources.getLast?` (the empty relative path when there is no source or
+the last source has no parent): `baseDir prog = match prog.sources.getLast? with | some last => last.parent.getD ⟨false, []⟩
+| none => ⟨false, []⟩` holds by `rfl`. -/
 theorem C12_relative_paths (fs : FS) (cwd : PathC) (fuel : Nat) (prog : Program) (path : String)
     (tr : List Event) (ops : List RawOp) (tr' : List Event)
     (h : resolveAndIngest fs cwd (fuel + 1) prog path tr = .ok (ops, tr')) :
     ∃ r loc text,
+      (match prog.root with
+        | some r' => Except.ok r'
+        | none => Root.new fs cwd (prog.sources.headD (PathC.ofString path))) = .ok r ∧
       r.check fs (cwd.join ((baseDir prog).join (PathC.ofString path))) = .ok loc ∧
+      fs.readText loc = some text ∧
       preprocess fs cwd fuel { root := some r, sources := prog.sources ++ [(baseDir prog).join (PathC.ofString path)] } text
-        (tr ++ [.check (cwd.join ((baseDir prog).join (PathC.ofString path))) true] ++ [.read loc]) = .ok (ops, tr') ∧
-      baseDir prog = (match prog.sources.getLast? with
-        | some last => (last.parent).getD ⟨false, []⟩
-        | none => ⟨false, []⟩) := by
-  obtain ⟨r, loc, text, _, hc, hp⟩ := resolveAndIngest_step fs cwd fuel prog path tr ops tr' h
-  exact ⟨r, loc, text, hc, hp, rfl⟩
+        (tr ++ [.check (cwd.join ((baseDir prog).join (PathC.ofString path))) true] ++ [.read loc]) = .ok (ops, tr') :=
+  resolveAndIngest_step_read fs cwd fuel prog path tr ops tr' h
+
+/-- the explanation of `baseDir` quoted in `C12_relative_paths` -/
+example (prog : Program) : baseDir prog = (match prog.sources.getLast? with
+    | some last => (last.parent).getD ⟨false, []⟩
+    | none => ⟨false, []⟩) := rfl
 
 end EtkVerif.C12
